@@ -151,6 +151,9 @@ type Mod struct {
 	Rpcs       []*Rpc       `json:"rpcs,omitempty"`
 	Notifs     []*Notif     `json:"notifs,omitempty"`
 	Raw        []string     `json:"raw,omitempty"` // further body statements written verbatim (operational command trees)
+	// DefsLast: the groupings are written after the data nodes and augments (the order of the body statements of a
+	// module means nothing): every uses in the data tree then refers forward
+	DefsLast bool `json:"defs_last,omitempty"`
 }
 
 // ---- rendering -----------------------------------------------------------------
@@ -473,14 +476,21 @@ func (m *Mod) Text() string {
 	for _, t := range m.Typedefs {
 		x.typedef(1, t)
 	}
-	for _, g := range m.Groupings {
-		x.grouping(1, g)
+	if !m.DefsLast {
+		for _, g := range m.Groupings {
+			x.grouping(1, g)
+		}
 	}
 	for _, n := range m.Nodes {
 		x.node(1, n)
 	}
 	for _, a := range m.Augments {
 		x.augment(1, a)
+	}
+	if m.DefsLast {
+		for _, g := range m.Groupings {
+			x.grouping(1, g)
+		}
 	}
 	for _, r := range m.Raw {
 		for _, l := range strings.Split(r, "\n") {
